@@ -2,6 +2,7 @@ import DryocVerif.Model.Protected
 import DryocVerif.Proofs.ProtectedRel
 import DryocVerif.Proofs.ProtectedRelExtra
 import DryocVerif.Proofs.GenProtected
+import DryocVerif.Proofs.ProtectedBalance
 /-
 C15 — the page-aligned allocator never hands back memory that still holds data: every release
 event `(size, nonzero)` observed by the harness has `nonzero = 0`, for every token history, every
@@ -17,6 +18,15 @@ exactly that block (`objDrop_releases`, `grow_releases_old`, `locked_resize_rele
 `locked_resize_panic_releases_new`, `clone_drop_releases`, `drop_token_releases`) and the final
 teardown logs exactly the blocks of the slots that were still live (`finish_releases_all`); and the
 zeroing write of `deallocate` goes to writable pages (`wipe_on_writable_pages`).
+
+The third part (`alloc_release_balance`) is the BALANCE over a whole run plus teardown: the multiset
+of released sizes equals the multiset of sizes passed to `alloc` — every block ever allocated is
+released exactly once (no leak, no double free).  The model logs releases but not allocations, so
+the allocation side is a ghost log (`stepAllocs`, `runAllocs` in `Proofs/ProtectedBalance.lean`),
+tied to the model through the bump pointer (`alloc_log_accounts_for_brk`).
+
+As everywhere in the protected-memory model, the only system call that can fail is `mlock`
+(header of `Model/Protected.lean`); `deallocate`'s own `mprotect` calls cannot fail here.
 -/
 namespace DryocVerif.Properties.C15
 open DryocVerif DryocVerif.Model.Protected DryocVerif.Proofs.Protected
@@ -165,6 +175,67 @@ example :
     let s' := runState c (State.init fun _ => true) [⟨.new, 0⟩, ⟨.lock, 0⟩, ⟨.failfrom 1, 0⟩]
     (step c s ⟨.resize 9, 0⟩).1 = .ok ∧ (step c s ⟨.resize 9, 0⟩).2.m.rel = [(8, 0)] ∧
     (step c s' ⟨.resize 9, 0⟩).1 = .panic ∧ (step c s' ⟨.resize 9, 0⟩).2.m.rel = [(growCap 0 9, 0)] := by
+  decide
+
+/-! ### balance: every block allocated is released exactly once -/
+
+/-- one token conserves blocks, size by size: (blocks of size `z` owned by the live slots after the
+token) + (released by the token) = (owned before) + (allocated by the token).  `capsOf` lists the
+capacities of the live slots that own a block, `sz` the sizes in the token's release log,
+`stepAllocs` the sizes the token passes to `alloc` (ghost).  No hypothesis: any state, any oracle,
+`ok` / `err` / `panic` outcomes alike. -/
+theorem step_balance (z : Nat) (c : Cfg) (s : State) (t : Tok) :
+    (capsOf (step c s t).2.slots).count z + (sz (step c s t).2.m).count z =
+      (capsOf s.slots).count z + (stepAllocs c s t).count z :=
+  step_bal z c s t
+
+/-- the teardown releases exactly the blocks still owned by live slots, in slot order -/
+theorem finish_balance (c : Cfg) (s : State) : sz (finish c s).m = capsOf s.slots :=
+  sz_finish c s
+
+/-- **`alloc_release_balance`**: over a whole run from the initial state plus the final teardown —
+any token list, any lock oracle, refusals and panics included — the list of ALL released sizes
+(`runReleases`: the release log of every token, then of `finish`) is a permutation of the list of
+ALL sizes passed to `alloc` (`runAllocs`).  So every block ever handed out by the page-aligned
+allocator goes back to it exactly once: nothing leaks, nothing is freed twice, and nothing is freed
+that was not allocated.
+
+The allocation log is a GHOST (the model's `alloc` does not log): `stepAllocs c s t` mirrors the two
+places that call `alloc` — `vecResize` when it reallocates (`growCap cap n`) and `vecClone` of a
+non-empty vector (`len`) — along the branches of each token.  Its tie to the model is
+`alloc_log_accounts_for_brk`.  No hypothesis on `c` (page size, `wipe`, `undo` are irrelevant to the
+balance). -/
+theorem alloc_release_balance (c : Cfg) (oracle : Nat → Bool) (toks : List Tok) :
+    (runReleases c (State.init oracle) toks).Perm (runAllocs c (State.init oracle) toks) :=
+  Proofs.Protected.alloc_release_balance c oracle toks
+
+/-- the same from an arbitrary state: what is released = what the live slots owned + what was
+allocated on the way -/
+theorem alloc_release_balance_from (c : Cfg) (s : State) (toks : List Tok) :
+    (runReleases c s toks).Perm (capsOf s.slots ++ runAllocs c s toks) :=
+  run_balance_perm c s toks
+
+/-- **the ghost log is the model's**: `alloc` is the only function that moves the bump pointer
+`brk`, by `size / P + 3` pages per call (data pages + two guard pages; `Proofs.Protected.alloc_brk`).
+In every step, and over every run, `brk` advances by exactly the pages of the sizes listed in the
+ghost log — so the log misses no call of `alloc` and invents none (up to sizes with the same page
+count). -/
+theorem alloc_log_accounts_for_brk (c : Cfg) (hP : 0 < c.P) (s : State) (toks : List Tok) (t : Tok) :
+    (step c s t).2.m.k.brk = s.m.k.brk + pagesA c.P (stepAllocs c s t) ∧
+    (runState c s toks).m.k.brk = s.m.k.brk + pagesA c.P (runAllocs c s toks) :=
+  ⟨step_brk c hP s t, runState_brk c hP toks s⟩
+
+/-- non-vacuity witness (`alloc_release_balance`): a run with a clone, a growing resize, a locked
+resize-by-copy that PANICS (refused lock), a refused constructor, an early drop — five allocations,
+five releases, the same sizes; and the bump pointer moved by the 5 · 3 pages of the five blocks -/
+example :
+    let c : Cfg := { cNoWipe with n := 16, wipe := true }
+    let toks : List Tok := [⟨.new, 0⟩, ⟨.clone, 0⟩, ⟨.resize 40, 1⟩, ⟨.lock, 0⟩, ⟨.failfrom 1, 0⟩,
+      ⟨.resize 64, 0⟩, ⟨.fsl 9, 0⟩, ⟨.drop, 1⟩]
+    runAllocs c (State.init fun _ => true) toks = [16, 16, 40, 64, 9] ∧
+    runReleases c (State.init fun _ => true) toks = [16, 64, 9, 40, 16] ∧
+    (run c (State.init fun _ => true) toks).map (·.1) = [.ok, .ok, .ok, .ok, .ok, .panic, .err, .ok] ∧
+    (runState c (State.init fun _ => true) toks).m.k.brk = startPage + 5 * 3 := by
   decide
 
 /-! ### the wipe cannot fault -/
